@@ -34,7 +34,7 @@ if git -C /repo apply "$seed/patch.diff"; then
     echo "$out" | grep -E "^VIOLATION|: C[0-9]+-|^C[0-9]+ tier" | cut -c1-260 | head -12
   done
   rm -rf "$ev"
-  git -C /repo checkout -- .
+  git -C /repo checkout -- . ; git -C /repo clean -fdq
   git -C /repo status --short | head -3
 else
   echo "cannot apply to /repo"
